@@ -473,6 +473,72 @@ def IsLetHoist (p p' : Program) (t : Nat) (n : String) : Prop :=
 def hoistCheck (p p' : Program) (t : Nat) (n : String) : Bool :=
   progEq (WP stripCfg p') (WP stripCfg (hoistProg t n p)) && hitsProg t p == 1 && freshProg n p
 
+-- ------------------------------------------------------------------ free variables (lexical scoping)
+
+def destNames : Dest → List String
+  | .sym n => [n]
+  | .destr ns => ns
+
+mutual
+/-- The uses of variables not bound inside the expression itself, in source order. Scopes: a `let`
+binds in the REST of its block; the branches of `if`, loop bodies, EACH `match` arm (with its payload
+names) and closure bodies (with the parameters) are blocks of their own; a `for` variable is bound in
+the loop body only. -/
+def fvE (bd : List String) : Expr → List String
+  | .int .. => []
+  | .str .. => []
+  | .var _ _ x => if bd.contains x then [] else [x]
+  | .binop _ _ _ l r => fvE bd l ++ fvE bd r
+  | .letE _ _ _ rhs => fvE bd rhs
+  | .assign _ _ x rhs => (if bd.contains x then [] else [x]) ++ fvE bd rhs
+  | .update _ _ _ x rhs => (if bd.contains x then [] else [x]) ++ fvE bd rhs
+  | .ifE _ _ c th el => fvE bd c ++ fvSeq bd th ++ fvOpt bd el
+  | .whileE _ _ c b => fvE bd c ++ fvSeq bd b
+  | .forE _ _ d e b => fvE bd e ++ fvSeq (destNames d ++ bd) b
+  | .matchE _ _ s cs => fvE bd s ++ fvCases bd cs
+  | .ret _ _ none => []
+  | .ret _ _ (some e) => fvE bd e
+  | .brk .. => []
+  | .cont .. => []
+  | .list _ _ es => fvL bd es
+  | .tuple _ _ es => fvL bd es
+  | .call _ _ f as => fvE bd f ++ fvL bd as
+  | .lambda _ _ ps b => fvSeq (ps ++ bd) b
+  | .paren _ _ e => fvE bd e
+  | .invalid .. => []
+  | .unsup .. => []
+def fvSeq (bd : List String) : List Expr → List String
+  | [] => []
+  | e :: rest =>
+    fvE bd e ++ (match e with
+      | .letE _ _ d _ => fvSeq (destNames d ++ bd) rest
+      | _ => fvSeq bd rest)
+def fvL (bd : List String) : List Expr → List String
+  | [] => []
+  | e :: rest => fvE bd e ++ fvL bd rest
+def fvOpt (bd : List String) : Option (List Expr) → List String
+  | none => []
+  | some b => fvSeq bd b
+def fvCases (bd : List String) : List Case → List String
+  | [] => []
+  | .mk _ none b :: rest => fvSeq bd b ++ fvCases bd rest
+  | .mk _ (some d) b :: rest => fvSeq (destNames d ++ bd) b ++ fvCases bd rest
+end
+
+def dedup : List String → List String
+  | [] => []
+  | x :: rest => x :: (dedup rest).filter (· != x)
+
+/-- A name that can only mean a global of `p`: it resolves in the namespace and is never bound. -/
+def pureGlobal (p : Program) (y : String) : Bool :=
+  (nsLookup (funNames p) p.enums y).isSome && bokProg (fun z => z != y) p
+
+/-- The parameters an extraction of `b` from `p` must have: its free local variables, each once, in
+the order of first use. -/
+def expectedParams (p : Program) (b : Expr) : List String :=
+  dedup ((fvE [] b).filter fun y => !pureGlobal p y)
+
+
 def callOf (n : String) (ps : List String) : Expr := .call 0 false (.var 0 false n) (ps.map fun x => .var 0 false x)
 
 /-- Replace the node `t` (anywhere) by the call, provided the node is (up to ids / flags) `body`. -/
@@ -483,11 +549,15 @@ def funCfg (t : Nat) (n : String) (ps : List String) (body : Expr) : WCfg :=
 
 /-- C20, extract function: `p'` has one more toplevel function `n`, whose body is the single
 expression `e` = the node `t` of `p`, and `p'` without it is `p` with that node replaced by the call
-`n(params…)` (arguments = the parameter names, in the same order); `n` is fresh. -/
+`n(params…)` (arguments = the parameter names, in the same order); the parameters are exactly the
+free local variables of `e` (`expectedParams`, computed with the language's lexical scoping — each
+`match` arm, loop body, branch and closure body is a scope of its own), each once, in the order of
+first use; `n` is fresh. -/
 def IsFunExtract (p p' : Program) (t : Nat) (n : String) : Prop :=
   ∃ d b, p'.funs.find? (fun d => d.name == n) = some d ∧ d.body = [b] ∧
     WP stripCfg { p' with funs := p'.funs.filter fun d => d.name != n } = WP (funCfg t n d.params b) p ∧
-    hitsProg t p = 1 ∧ freshProg n p = true ∧ (funNames p).contains n = false
+    hitsProg t p = 1 ∧ freshProg n p = true ∧ (funNames p).contains n = false ∧
+    d.params = expectedParams p b
 
 def funextCheck (p p' : Program) (t : Nat) (n : String) : Bool :=
   match p'.funs.find? (fun d => d.name == n) with
@@ -496,14 +566,16 @@ def funextCheck (p p' : Program) (t : Nat) (n : String) : Bool :=
     match d.body with
     | [b] =>
       progEq (WP stripCfg { p' with funs := p'.funs.filter fun d => d.name != n }) (WP (funCfg t n d.params b) p) &&
-        hitsProg t p == 1 && freshProg n p && !(funNames p).contains n
+        hitsProg t p == 1 && freshProg n p && !(funNames p).contains n &&
+        decide (d.params = expectedParams p b)
     | _ => false
 
 mutual
-/-- `Pure`: built from literals, variables, operators, parentheses, list / tuple literals and calls of
-`string_repr` or of an enum constructor — no call of `print` / `println` / `dbg` or of a user function,
-no assignment, no binder, no block. Such an expression never changes the store or the output
-(`pure_keeps_state`); it may still raise an error (type error, division by zero, unbound variable). -/
+/-- `Pure` (side-effect free): literals, variables, operators, parentheses, list / tuple literals,
+calls of `string_repr` or of an enum constructor, closure literals, and `if` / `match` / `for` whose
+parts and blocks are pure (a block may bind with `let`) — no call of `print` / `println` / `dbg` or
+of a user function, no assignment, no loop exit. Such an expression never changes the output; it may
+still raise an error. -/
 def pureE (ctors : List String) : Expr → Bool
   | .int .. => true
   | .str .. => true
@@ -513,10 +585,22 @@ def pureE (ctors : List String) : Expr → Bool
   | .list _ _ es => pureL ctors es
   | .tuple _ _ es => pureL ctors es
   | .call _ _ (.var _ _ f) as => (f == "string_repr" || ctors.contains f) && pureL ctors as
+  | .call _ _ (.paren _ _ (.lambda _ _ _ b)) as => pureL ctors b && pureL ctors as
+  | .letE _ _ _ rhs => pureE ctors rhs
+  | .ifE _ _ c th el => pureE ctors c && pureL ctors th && pureO ctors el
+  | .forE _ _ _ e b => pureE ctors e && pureL ctors b
+  | .matchE _ _ s cs => pureE ctors s && pureC ctors cs
+  | .lambda _ _ _ b => pureL ctors b
   | _ => false
 def pureL (ctors : List String) : List Expr → Bool
   | [] => true
   | e :: rest => pureE ctors e && pureL ctors rest
+def pureO (ctors : List String) : Option (List Expr) → Bool
+  | none => true
+  | some b => pureL ctors b
+def pureC (ctors : List String) : List Case → Bool
+  | [] => true
+  | .mk _ _ b :: rest => pureL ctors b && pureC ctors rest
 end
 
 /-- Names that are enum constructors in `p` (with payload) and not shadowed by a function. -/
